@@ -617,6 +617,15 @@ def rule_overflow_released(ctx):
 
 
 
+
+def rule_withdrawing_lease_decodable(ctx):
+    """(shared C02.j)  A LEASE that grants nothing (0 requests, 0 ms) withdraws the previous one: it must reach
+    handle_lease, so the decoder rejects no field value (rules/c02.py)."""
+    from .c02 import rule_decoders_do_not_reject_values
+    rule_decoders_do_not_reject_values(ctx)
+
+
+
 RULES = [('C14.a', rule_a), ('C14.b', rule_b), ('C14.c', rule_c), ('C14.d', rule_d), ('C14.e', rule_e),
          ('C08.g', rule_f),
-         ('C14.f', rule_gate_scope), ('C14.g', rule_ctor), ('C14.d+C14.e', rule_plumbing), ('C01.e', rule_dispatch), ('C14.h', rule_hold_queue_bound), ('C10.e', rule_overflow_released)]
+         ('C14.f', rule_gate_scope), ('C14.g', rule_ctor), ('C14.d+C14.e', rule_plumbing), ('C01.e', rule_dispatch), ('C14.h', rule_hold_queue_bound), ('C10.e', rule_overflow_released), ('C02.j', rule_withdrawing_lease_decodable)]
